@@ -43,10 +43,14 @@ def blocks(v, rng):
         (f"({v} - {a})*log(abs({v} - {a}))", float(a)),
         (f"{v}*sin(1/{v})", 0.0),
         (f"({v} + 47)*log(abs({v} + 47))", -47.0),
+        # quotients whose numerator and denominator share a factor (a computer-algebra "factor" / "cancel" would hide the point)
+        (f"({v}*{v} - 4)/({v} - 2)", 2.0),
+        (f"(exp(2*{v}) - 1)/(exp({v}) - 1)", 0.0),
+        (f"({v}**3 - 8)/({v} - 2)", 2.0),
     ]
 
 
-def build_model(rng, k_target):
+def build_model(rng, k_target, force=None):
     """one monitored expression with k_target removable singularities (k = 0, 1, 2, 3), plus regular
     and infinite ones; multi-component layout at random"""
     layout = rng.choice(["single", "split"])
@@ -57,7 +61,11 @@ def build_model(rng, k_target):
     for i in range(k_target):
         v = vars_[i % 2] if i < 2 else "x"
         cand = [b for b in blocks(v, rng) if (v, b[1]) not in used]
-        txt, pt = rng.choice(cand)
+        if i == 0 and force is not None:
+            bl = blocks(v, rng)
+            txt, pt = bl[force % len(bl)]      # every building block is used at least once per run
+        else:
+            txt, pt = rng.choice(cand)
         used.append((v, pt))
         terms.append(txt)
         sing_pts.setdefault(v, []).append(pt)
@@ -79,11 +87,16 @@ def main(argv=None):
     core.props_or_violation(rep)
     drv = core.Driver()
     rng = random.Random(a.seed)
-    n = a.n or (18 if a.tier == "quick" else 200)
+    n = a.n or (28 if a.tier == "quick" else 200)
     core.CASE_SECONDS = 120
+    n_single = 0
     for i in range(n):
         k_target = [0, 1, 1, 1, 2, 3][i % 6]
-        text, sing_pts, layout = build_model(rng, k_target)
+        force = None
+        if k_target == 1:
+            force = n_single
+            n_single += 1
+        text, sing_pts, layout = build_model(rng, k_target, force)
         core.guarded(rep, text, check, rep, drv, rng, text, sing_pts, k_target, layout)
         rep.case(key=text, nontrivial=k_target >= 1)
         rep.count(f"k={k_target}")
@@ -94,7 +107,7 @@ def main(argv=None):
         level="proof",
         rule="one monitored expression built from 0-3 removable-singularity blocks (x/(exp(x)-1), sin(x)/x, (x-a)/(exp(x)-exp(a)), "
              "x/(b(exp(x)-1)), a shifted gate rate, (exp(x)-1)/x, and four that are not zeros of a denominator: x log|x|, (x-a) log|x-a|, x sin(1/x), "
-             "(x+47) log|x+47|) in one or two states, combined by + or *, next to a regular and an infinite "
+             "(x+47) log|x+47|; and three quotients with a common factor: (x²-4)/(x-2), (e^{2x}-1)/(e^x-1), (x³-8)/(x-2)) in one or two states, combined by + or *, next to a regular and an infinite "
              "(b/x) expression; single-component and split layouts (expression in a component without states); values on and off every "
              "singular point; non-trivial = at least one removable singularity",
         trusted_base=["Coq 8.16.1 kernel", "sympy.singularities / limit as oracles (limits re-checked with mpmath, 50 digits)", "numpy as evaluator"],
